@@ -2,7 +2,11 @@
 
 package pkglint
 
-import "bytes"
+import (
+	"bytes"
+	"io"
+	"strings"
+)
 
 // C04: drives the real Logger + Autofix with a script of events, in a given
 // mode. Add-only; used by harness/c04_unit.go.
@@ -169,5 +173,70 @@ func VerifModesScript(show, autofix, source bool, only []string, specs []VerifMo
 	res.AutofixAvailable = G.Logger.autofixAvailable
 	res.ExplanationsAvailable = G.Logger.explanationsAvailable
 	res.Errors, res.Warnings, res.Notes = G.Logger.errors, G.Logger.warnings, G.Logger.notes
+	return
+}
+
+// ---------- the paragraph-level check (VaralignBlock) between other fixes ----------
+
+// VerifParaFix is one Replace(from, to) applied to a line of the paragraph
+// after VaralignBlock.Process has seen all lines and before Finish.
+type VerifParaFix struct {
+	Line     int // index into the lines of the paragraph
+	From, To string
+}
+
+type VerifParaResult struct {
+	Panic       string
+	Output      []string // the diagnostics of the whole script, in order
+	TextsBefore []string // Autofix.texts[0] of every line when Finish is called
+	FinishOut   []string // what Finish itself has printed
+}
+
+// VerifPara parses rawLines (one paragraph of single-line variable
+// assignments) as a makefile fragment, lets VaralignBlock.Process see every
+// line, applies the fixes (fix.Notef("r"); fix.Replace(from, to); fix.Apply())
+// and then calls VaralignBlock.Finish, in the given mode.
+func VerifPara(show, autofix bool, rawLines []string, fixes []VerifParaFix) (res VerifParaResult) {
+	var out bytes.Buffer
+	res.Panic = VerifPanic(func() {
+		G = NewPkglint(&out, io.Discard)
+		G.Logger.Opts = LoggerOpts{ShowAutofix: show, Autofix: autofix}
+		G.WarnExtra = true
+		var sb strings.Builder
+		for _, l := range rawLines {
+			sb.WriteString(l)
+			sb.WriteString("\n")
+		}
+		lines := convertToLogicalLines(NewCurrPath("f"), sb.String(), true)
+		mklines := NewMkLines(lines, nil, nil)
+		var va VaralignBlock
+		for _, mkline := range mklines.mklines {
+			va.Process(mkline)
+		}
+		for _, f := range fixes {
+			if f.Line < 0 || f.Line >= len(mklines.mklines) {
+				continue
+			}
+			fix := mklines.mklines[f.Line].Autofix()
+			fix.Notef("r")
+			fix.Replace(f.From, f.To)
+			fix.Apply()
+		}
+		for _, mkline := range mklines.mklines {
+			res.TextsBefore = append(res.TextsBefore, mkline.Autofix().texts[0])
+		}
+		n := out.Len()
+		va.Finish()
+		for _, l := range strings.Split(out.String()[n:], "\n") {
+			if l != "" {
+				res.FinishOut = append(res.FinishOut, l)
+			}
+		}
+	})
+	for _, l := range strings.Split(out.String(), "\n") {
+		if l != "" {
+			res.Output = append(res.Output, l)
+		}
+	}
 	return
 }
